@@ -28,6 +28,13 @@ impl<'a> UserModel<'a> {
             .get_dxf_for_conditional_formatting(sheet, index as usize)
     }
 
+    // The format that adding or updating a rule has just appended to the dxf table
+    fn created_dxf(&self, stored_rule: &CfRule) -> Option<crate::types::Dxf> {
+        let mut rule = stored_rule.clone();
+        let id = *rule.dxf_id_mut()?;
+        self.model.workbook.styles.dxfs.get(id as usize).cloned()
+    }
+
     /// Adds a new CF rule to `sheet`.
     pub fn add_conditional_formatting(
         &mut self,
@@ -52,11 +59,13 @@ impl<'a> UserModel<'a> {
                 dxf_id: 0,
                 stop_if_true: false,
             });
+        let dxf = self.created_dxf(&stored_rule);
         self.push_diff_list(vec![Diff::AddConditionalFormatting {
             sheet,
             range: range.to_string(),
             rule: Box::new(stored_rule),
             priority,
+            dxf,
         }]);
         self.evaluate_if_not_paused();
         Ok(())
@@ -104,6 +113,7 @@ impl<'a> UserModel<'a> {
                 dxf_id: 0,
                 stop_if_true: false,
             });
+        let new_dxf = self.created_dxf(&stored_rule);
         self.push_diff_list(vec![Diff::UpdateConditionalFormatting {
             sheet,
             index,
@@ -112,6 +122,7 @@ impl<'a> UserModel<'a> {
             old_priority: old.priority,
             new_range: new_range.to_string(),
             new_rule: Box::new(stored_rule),
+            new_dxf,
         }]);
         self.evaluate_if_not_paused();
         Ok(())
